@@ -375,8 +375,28 @@ fn lambda_pipeline_layouts() -> Vec<Case> {
     v
 }
 
+/// blanks, tabs and line breaks inside parameter lists (around `?`, after `...`, around commas
+/// and parentheses)
+fn parameter_list_layouts() -> Vec<Case> {
+    let mut v = Vec::new();
+    let pairs: &[(&str, &[&str])] = &[
+        ("f = (x?) => x ?? 7", &["f = x? => x ?? 7", "f = x ? => x ?? 7", "f = (x ?) => x ?? 7", "f = ( x? ) => x ?? 7", "f = x\t? => x ?? 7", "f = (x  ?)=>x ?? 7"]),
+        ("f = (a, b?) => b", &["f = (a, b ?) => b", "f = (a , b?) => b", "f = ( a,b ? ) => b", "f = (a,\n  b ?) => b", "f = (a, b?,\n) => b"]),
+        ("f = (...rest) => rest", &["f = ...rest => rest", "f = ... rest => rest", "f = (... rest) => rest", "f = ( ...rest ) => rest", "f = (...\trest) => rest"]),
+        ("f = (a, b?, ...r) => [a, b, r]", &["f = ( a , b ? , ... r ) => [a, b, r]", "f = (a,b?,...r)=>[a, b, r]", "f = (\n  a,\n  b ?,\n  ... r\n) => [a, b, r]"]),
+        ("g = [1] via ((x, i?) => i)", &["g = [1] via ((x, i ?) => i)", "g = [1] via (( x , i ? ) => i)"]),
+    ];
+    for (canonical, variants) in pairs {
+        for varied in variants.iter() {
+            v.push(Case::Text { canonical: canonical.to_string(), varied: varied.to_string() });
+        }
+    }
+    v
+}
+
 pub fn run(ctx: &mut Ctx) {
     ctx.run_enum(&Parsing, lambda_pipeline_layouts().into_iter(), false);
+    ctx.run_enum(&Parsing, parameter_list_layouts().into_iter(), false);
     ctx.run_enum(&Parsing, enumerated_trees().into_iter().map(Case::Tree), true);
     ctx.run_enum(&Parsing, names().into_iter().map(Case::Name), true);
     let tape = || prop::collection::vec(any::<u16>(), 0..200);
